@@ -22,7 +22,7 @@ RULE = ("generated file-based scenarios (requests, time-varying prices, human an
         "price change or charging step straddling a split point; distinct = sha1(case)")
 ASSUMPTIONS = ["the three runs are separate fresh loads in one process with PYTHONHASHSEED pinned to 0 (cross-process / hash-seed reproducibility is C01)",
                "instance ids (uuid4 tags) are stripped before comparison"]
-FLOORS = {"quick": {"steps_compared": 1000, "flag:m_ge_3": 25, "flag:event_straddles_split": 25, "runner_range_checks": 50}, "thorough": {"steps_compared": 300000}}
+FLOORS = {"quick": {"steps_compared": 1000, "flag:m_ge_3": 25, "flag:event_straddles_split": 25, "runner_range_checks": 50}, "thorough": {"steps_compared": 50000}}
 
 PROFILE = profile(nv=(1, 5), n_requests=(5, 40), builtin=[True], n_scripted=[1], socs=[0.05, 0.12, 0.3, 0.8, 0.97], prices_always=True)
 
